@@ -141,18 +141,38 @@ func (b *c22BlockState) SetFinalisedHash(h common.Hash, round, setID uint64) err
 	return nil
 }
 
-type c22GrandpaState struct{ GrandpaState }
+type c22GrandpaState struct {
+	GrandpaState
+	pcs map[uint64][]SignedVote
+	pvs map[uint64][]SignedVote
+}
 
-func (c22GrandpaState) NextGrandpaAuthorityChange(common.Hash, uint) (uint, error) {
+func (*c22GrandpaState) NextGrandpaAuthorityChange(common.Hash, uint) (uint, error) {
 	return 0, fmt.Errorf("c22: %w", state.ErrNoNextAuthorityChange)
 }
-func (c22GrandpaState) GetCurrentSetID() (uint64, error)                   { return 0, nil }
-func (c22GrandpaState) GetLatestRound() (uint64, error)                    { return 0, nil }
-func (c22GrandpaState) SetLatestRound(uint64) error                        { return nil }
-func (c22GrandpaState) SetPrevotes(_, _ uint64, _ []SignedVote) error      { return nil }
-func (c22GrandpaState) SetPrecommits(_, _ uint64, _ []SignedVote) error    { return nil }
-func (c22GrandpaState) GetPrecommits(_, _ uint64) ([]SignedVote, error)    { return nil, c22ErrNoPc }
-func (c22GrandpaState) GetPrevotes(_, _ uint64) ([]SignedVote, error)      { return nil, c22ErrNoPc }
+func (*c22GrandpaState) GetCurrentSetID() (uint64, error) { return 0, nil }
+func (*c22GrandpaState) GetLatestRound() (uint64, error)  { return 0, nil }
+func (*c22GrandpaState) SetLatestRound(uint64) error      { return nil }
+func (g *c22GrandpaState) SetPrevotes(round, _ uint64, v []SignedVote) error {
+	g.pvs[round] = v
+	return nil
+}
+func (g *c22GrandpaState) SetPrecommits(round, _ uint64, v []SignedVote) error {
+	g.pcs[round] = v
+	return nil
+}
+func (g *c22GrandpaState) GetPrecommits(round, _ uint64) ([]SignedVote, error) {
+	if v, ok := g.pcs[round]; ok {
+		return v, nil
+	}
+	return nil, c22ErrNoPc
+}
+func (g *c22GrandpaState) GetPrevotes(round, _ uint64) ([]SignedVote, error) {
+	if v, ok := g.pvs[round]; ok {
+		return v, nil
+	}
+	return nil, c22ErrNoPc
+}
 
 type c22Telemetry struct{}
 
@@ -323,7 +343,7 @@ func c22NewVoter(idx int, voters []Voter, t *c22Tree) *c22Voter {
 	nw := &c22Network{}
 	svc := &Service{
 		blockState:         bs,
-		grandpaState:       c22GrandpaState{},
+		grandpaState:       &c22GrandpaState{pcs: map[uint64][]SignedVote{}, pvs: map[uint64][]SignedVote{}},
 		keypair:            c22Key(idx),
 		authority:          true,
 		network:            nw,
